@@ -58,6 +58,41 @@ func (e *Enc) callWith(fr *Frame, c *ssa.CallCommon, site ssa.Instruction, st *S
 		callee = e.value(fr, c.Value)
 	}
 	if callee.Clo == nil {
+		// a function value loaded from an unexported field of an in-repo struct: if every store to
+		// that field (whole program) puts a closure of one and the same function there, the call is
+		// a call of that function with captured variables cloFV(callee)
+		if fn := e.w.fieldFuncCandidate(c.Value); fn != nil {
+			if ct := e.w.ct.Funcs[fnKey(fn)]; ct != nil && !ct.Inline {
+				var bind []Val
+				for k, fv := range fn.FreeVars {
+					f := e.sc.DeclFun(fmt.Sprintf("cloFV_%s_%d", fn.String(), k), []string{"Int"}, e.sortOf(fv.Type()))
+					bind = append(bind, Val{T: app(f, callee.T), Typ: fv.Type()})
+				}
+				for k := range fn.FreeVars {
+					if et, ok := effectivelyFinal(fn, k, nil); ok {
+						if a := e.addrOfPointer(bind[k]); a != nil {
+							g := e.sc.DeclFun(fmt.Sprintf("cloFVinit_%s_%d", fn.String(), k), []string{"Int"}, e.sortOf(et))
+							e.sc.Assert(implies(rb, eq(app(g, callee.T), e.Load(st, a))))
+							e.trusted["captured variable "+fn.FreeVars[k].Name()+" of "+funcShort(fn)+" keeps its creation-time value (never assigned inside the closure; enclosing function assigns it once - syntactic check at creation sites)"] = true
+						}
+					}
+				}
+				e.trusted["closed world for function-valued field: only closures of "+funcShort(fn)+" are ever stored there (whole-program scan)"] = true
+				return e.applyContractFV(fr, ct, fnKey(fn), fn.Signature, args, false, st, rb, site, resType, fn, bind)
+			}
+		}
+		// a call through a function-typed parameter of the function under verification, recorded in
+		// a ghost log when the contract asks for it
+		if par, ok := c.Value.(*ssa.Parameter); ok && fr == fr.top && fr.contract != nil && fr.contract.LogParams[par.Name()] != "" {
+			log := fr.contract.LogParams[par.Name()]
+			st = e.Leak(st, args...)
+			st = e.Havoc(st, e.modAllHeap())
+			res := e.freshVal("res_"+par.Name(), resType)
+			e.assumeAllocated(res, st)
+			e.assumeNotPrivate(res, st)
+			st = e.logCall(log, st, args, res, c.Signature(), false)
+			return res, st, rb
+		}
 		// dynamic call of an unknown function value
 		e.havocked["dynamic call in "+funcShort(fr.fn)] = true
 		st = e.Leak(st, args...)
@@ -233,6 +268,10 @@ func shortKey(k string) string {
 
 // applyContract: assert requires, havoc modifies, assume ensures.
 func (e *Enc) applyContract(fr *Frame, ct *Contract, key string, sig *types.Signature, args []Val, invoke bool, st *State, rb Term, site ssa.Instruction, resType types.Type) (Val, *State, Term) {
+	return e.applyContractFV(fr, ct, key, sig, args, invoke, st, rb, site, resType, nil, nil)
+}
+
+func (e *Enc) applyContractFV(fr *Frame, ct *Contract, key string, sig *types.Signature, args []Val, invoke bool, st *State, rb Term, site ssa.Instruction, resType types.Type, cloFn *ssa.Function, bind []Val) (Val, *State, Term) {
 	ct.Used = true
 	if ct.Trusted {
 		e.trusted["spec: "+key] = true
@@ -241,6 +280,13 @@ func (e *Enc) applyContract(fr *Frame, ct *Contract, key string, sig *types.Sign
 	fr.top.callN["call@"+short]++
 	n := fr.top.callN["call@"+short]
 	env := e.contractEnv(ct, sig, args, invoke)
+	if cloFn != nil {
+		for k, fv := range cloFn.FreeVars {
+			if k < len(bind) {
+				env.vars[fv.Name()] = bind[k]
+			}
+		}
+	}
 	// cut-point assertions of the host contract for this call
 	if fr.contract != nil {
 		for _, ca := range fr.contract.Asserts {
@@ -470,6 +516,8 @@ func (e *Enc) builtin(fr *Frame, b *ssa.Builtin, c *ssa.CallCommon, args []Val, 
 		}
 		comp := e.elemComp(stp.Elem())
 		var r Term
+		e.pendingAllocComps = []string{comp}
+		e.pendingAllocType = resType
 		r, st = e.allocRef(st, "append", rb)
 		h := e.Get(st, comp)
 		oldArr := app("select", h, "(sl_ref "+s.T+")")
